@@ -939,12 +939,25 @@ def _related_patterns(r, entries) -> list[tuple[str, dict]]:
             with warnings.catch_warnings():
                 warnings.simplefilter("ignore")
                 ng = NamedGlob(pat, dict(subs))
-            if not glob_wellformed(ng._glob_pattern) or pat.startswith(".stepup"):
+            if not glob_wellformed(ng._glob_pattern) or pat.startswith(".stepup") or not _plain_classes(pat, subs) \
+                    or _expected_incomplete(pat, subs, None):
                 continue
         except (ValueError, re.error):
             continue
         out.append((pat, subs))
     return out
+
+
+def _plain_classes(pat: str, subs: dict) -> bool:
+    """Class bodies that `re` and `fnmatch` read alike (the harness-side twin of `simplePattern`)."""
+    for text in [pat, *subs.values()]:
+        for body in re.findall(r"\[(.*?)\]", text):
+            body = body[1:] if body.startswith("!") else body
+            if not body or body.startswith("^") or any(c in body for c in "\\[]&~|/"):
+                return False
+        if "[" in re.sub(r"\[.*?\]", "", text) and "]" in text:
+            return False
+    return True
 
 
 def _scan(pat, subs) -> NamedGlob:
@@ -1021,8 +1034,10 @@ async def run_workflow_scenario(entries, entries2, pats, owner, nsteps, mode) ->
                 st = steps[si]
                 fresh = _scan(pat, subs)
                 cands = [ng for (p2, s2, ng) in stored.get(st.i, []) if p2 == pat and s2 == dict(subs)]
-                if fresh.results != _scan_list(pat, subs, before).results:
+                if mode == "rescan" and fresh.results != _scan_list(pat, subs, before).results:
                     changed_steps.add(si)
+                if mode == "watch" and any(ng.results != _scan_list(pat, subs, before).results for ng in cands):
+                    changed_steps.add(si)  # the watcher makes a step pending iff what it stores changes
                 if not cands:
                     problems.append((SIG_RESCAN if mode == "rescan" else SIG_WATCH,
                                      f"registration of {pat!r} by ./work{si}.py is missing from the database", detail0))
@@ -1042,7 +1057,6 @@ async def run_workflow_scenario(entries, entries2, pats, owner, nsteps, mode) ->
                             problems.append((sig, f"process_nglob_changes stores {sorted(q for q, v in over.items() if v == sig)!r} "
                                              f"for {pat!r} (accepted by the regex {fresh._regex.pattern!r}); a fresh scan does not "
                                              f"record them", detail))
-                        changed_steps.add(si) if got.results != _scan_list(pat, subs, before).results else None
                         continue
                     if not (fresh_s - got_s) and (got_s - fresh_s) and _expected_incomplete(pat, subs, None):
                         continue
